@@ -163,9 +163,12 @@ def replay_script(prop, path):
     return 0
 
 
-def model_cfg(path, enable, runs, maxtrig, maxget, fixed, props=True):
-    t = "CONSTANTS Enable = %s Runs = %d MaxTrig = %d MaxGet = %d ResetAtStart = %s MaxFid = %d NSets = %d\n" % (
-        "TRUE" if enable else "FALSE", runs, maxtrig, maxget, "TRUE" if fixed else "FALSE", 6, 1 if enable else 0)
+def model_cfg(path, enable, runs, maxtrig, maxget, fixed, props=True, toggle=False, nsets=None, maxfid=6, clear=True):
+    """toggle: every simcam_set of the model switches the software trigger over (nsets of them); clear=False is the seeded
+    variant C18i (the streamer clears `triggered` only while the trigger is enabled), used for the self-test."""
+    t = "CONSTANTS Enable = %s Runs = %d MaxTrig = %d MaxGet = %d ResetAtStart = %s MaxFid = %d NSets = %d Toggle = %s ClearAlways = %s\n" % (
+        "TRUE" if enable else "FALSE", runs, maxtrig, maxget, "TRUE" if fixed else "FALSE", maxfid,
+        nsets if nsets is not None else (1 if enable else 0), "TRUE" if toggle else "FALSE", "TRUE" if clear else "FALSE")
     t += "SPECIFICATION Spec\nINVARIANTS NoBad NoSetWhileRendering\nCONSTRAINT Bounded\nCHECK_DEADLOCK FALSE\n"
     if props:
         t += "PROPERTIES StopReturns CallReleased SetReturns\n"
@@ -210,13 +213,21 @@ def main(prop, tier):
     rng = random.Random(seed() * 7919 + 18)
     # (1) model
     models = [(True, 2, 2, 2), (False, 2, 1, 2)] if not thorough else [(True, 2, 3, 3), (False, 2, 2, 3), (True, 3, 2, 2)]
+    # ... and with the trigger switched over by simcam_set while the camera runs (toggle: enable, maxtrig, maxget, nsets, maxfid):
+    # the model carries SimCamStreamObs' trigger accounting (FrameWithoutTrigger, FrameWithoutTriggerAfterEnable) as ghost state,
+    # so NoBad says that no interleaving of the code as it is can be refused by those rules
+    toggles = [(False, 1, 2, 1, 2)] if not thorough else [(True, 1, 2, 2, 3), (False, 1, 3, 1, 4), (True, 1, 3, 2, 3)]
     states = trans = 0
     import concurrent.futures as cf
     def run_model(m):
+        if len(m) == 5:
+            cfg = model_cfg(os.path.join(bdir, "mt_%d_%d_%d_%d_%d.cfg" % (int(m[0]), m[1], m[2], m[3], m[4])), m[0], 1, m[1], m[2], True,
+                            props=True, toggle=True, nsets=m[3], maxfid=m[4])
+            return m, tlc("SimCamStream", cfg, bdir, workers=5, timeout=2400, heap="8g")
         cfg = model_cfg(os.path.join(bdir, "m_%d_%d_%d_%d.cfg" % (int(m[0]), m[1], m[2], m[3])), m[0], m[1], m[2], m[3], True, props=m[0])
         return m, tlc("SimCamStream", cfg, bdir, workers=6, timeout=1500, heap="8g")
     with cf.ThreadPoolExecutor(max_workers=3) as ex:
-        futs = [ex.submit(run_model, m) for m in models]
+        futs = [ex.submit(run_model, m) for m in models + toggles]
         # (2) executions meanwhile
         n = 4000 if thorough else 800
         cfgs, traces = [], []
@@ -231,13 +242,21 @@ def main(prop, tier):
             crash_or_broken(bad[0][1], bad[0][2], "simcam_vs", "simcam_vs on " + open(bad[0][0]).read().replace("\n", "; ")[:600])
         mres = [f.result() for f in futs]
     for m, r in mres:
-        what = "SimCamStream trigger=%s runs=%d maxtrig=%d maxget=%d" % m
+        what = ("SimCamStream trigger=%s runs=%d maxtrig=%d maxget=%d" % m) if len(m) == 4 else \
+               ("SimCamStream trigger initially %s, switched over by %d set(s), maxtrig=%d maxget=%d maxfid=%d" % (m[0], m[3], m[1], m[2], m[4]))
         if r.violated:
             raise Broken("%s violates %s (model of the repaired camera is wrong): %s" % (what, r.violated, r.outpath))
         tlc_or_broken(r, what)
         states += r.distinct; trans += r.generated
         chk.cov.setdefault("models", []).append({"model": what, "distinct_states": r.distinct, "transitions": r.generated, "wall_s": round(r.wall, 1)})
     chk.set("states", states); chk.set("transitions", trans)
+    # an observation outside the property (DESIGN 15.6), reproduced by the model: a disabling set can leave the streamer asleep
+    # on trigger_ready although the trigger is off. Recorded in the evidence only; the result does not depend on it.
+    scfg = write_cfg(os.path.join(bdir, "stall.cfg"),
+                     "CONSTANTS Enable = TRUE Runs = 1 MaxTrig = 1 MaxGet = 2 ResetAtStart = TRUE MaxFid = 2 NSets = 1 Toggle = TRUE ClearAlways = TRUE\n"
+                     "SPECIFICATION Spec\nINVARIANT NeverStalled\nCONSTRAINT Bounded\nCHECK_DEADLOCK FALSE\n")
+    rs = tlc("SimCamStream", scfg, bdir, workers=4, timeout=600, heap="4g")
+    chk.set("observation_free_running_camera_can_wait_for_a_trigger", {"model_state_reachable": bool(rs.violated), "judged": False})
     allp = os.path.join(bdir, "all.ndjson")
     idx = concat(traces, allp)
     v = judge(chk, allp, idx, cfgs, bdir)
